@@ -2766,7 +2766,7 @@ def sourcemap_rules(ctx, prefix):
         obs.append(ob("%s.src/close-bracket" % prefix, ok, ctx.where(f), "the synthesised closing bracket points at its opening bracket: %s" % ok))
         # mapping open -> close
         table = {}
-        for n in sir.walk(f.body):
+        for n in sir.walk_reach(sc, f, 1):      # the table may live in a one-line helper (`closing_token_of(&token)`)
             if n.get("k") == "arm":
                 vs = [c["segs"][-1] for c in ([n["pat"]] if n["pat"].get("k") != "p_or" else n["pat"]["cases"]) if c.get("k") in ("p_path", "p_ts", "p_struct")]
                 b = n["body"]
